@@ -62,7 +62,7 @@ def main():
             rc2, o2, e2 = sh([os.path.join(ROOT, "tools", "baseline.sh"), wt], timeout=1800)
             res["suite_passes"] = (rc2 == 0)
             res["suite_tail"] = o2[-200:]
-        env = dict(os.environ, OFX_REPO=wt)
+        env = dict(os.environ, OFX_REPO=wt, VERIF_EVIDENCE_DIR=os.path.join(ROOT, ".work", "seed_evidence"))
         for p in props:
             t0 = time.time()
             rc3, o3, e3 = sh([os.path.join(ROOT, "check"), p, "--tier", a.tier], cwd=ROOT, env=env, timeout=7200)
